@@ -101,24 +101,8 @@ func c05(c *Ctx) {
 	c.Before("open-seq/recover-does-both", rc, p.SuccessReturn, call("CheckpointNoLock"), 1, "every success exit of recover has checkpointed", "an un-checkpointed WAL is left for SQLite to replay differently")
 	c.ErrHandled("open-seq/recover-errors", rc, p.PlainCalls("litefs.(*DB).rollbackJournal", "litefs.(*DB).CheckpointNoLock"), nil, 2, "recover propagates both errors", "a failed rollback must stop recovery")
 
-	// ---- C05.rollback ----
-	rb := "litefs.(*DB).rollbackJournal"
+	c.rollbackFamily("rollback")
 	trunc := call("truncateDatabase")
-	seg := call("rollbackJournalSegment")
-	rmJournal := c.osCall("Remove", "litefs.(*DB).JournalPath(p0)")
-	c.Guarded("rollback/truncate-valid-only", rb, trunc, gs(GP("litefs.(*JournalReader).IsValid(@@)", true)), 1,
-		"the database is resized only when a valid journal header was read", "resizing to a zero/garbage size destroys the database")
-	c.ExpectAll("rollback/truncate-size", c.CallArgs(rb, trunc, 2), pat("litefs.NewJournalReader(@@).commit"), 1, "the size restored is the journal header's initial database size", "C17: rollback restores exactly the pre-transaction size")
-	c.NoPath("rollback/no-copy-after-truncate", rb, trunc, seg, 1, "no journal page is copied back after the resize", "pages beyond the restored size would be re-extended")
-	c.Before("rollback/sync-before-unlink", rb, rmJournal, c.fileCall("Sync", "DatabasePath"), 1,
-		"the database file is fsynced before the journal is removed", "removing the journal commits the rollback; the restored pages must be durable first")
-	c.NoPath("rollback/no-write-after-unlink", rb, rmJournal, Any(seg, trunc), 1, "nothing is written to the database after the journal is removed", "a crash would leave a half-restored database without a journal")
-	c.BeforeG("rollback/journal-removed", rb, p.SuccessReturn, rmJournal, gs(GP("os.IsNotExist(litefs.OS.OpenFile(p0.os, @@JournalPath@@)#1)", true)), 1,
-		"unless no journal exists, every success exit has removed the journal", "a hot journal left behind is replayed by SQLite against a database LiteFS has already moved on")
-	c.Before("rollback/invalidate-after-unlink", rb, p.PlainCalls("litefs.Invalidator.InvalidateEntry"), rmJournal, 1, "the kernel entry cache is invalidated after the unlink", "invalidate-then-unlink lets the kernel re-cache the entry")
-	c.ErrHandled("rollback/errors", rb, p.PlainCalls("litefs.(*JournalReader).Next", "litefs.(*DB).rollbackJournalSegment", "litefs.(*DB).truncateDatabase", "os.(*File).Sync", "os.(*File).Close", "litefs.OS.Remove", "litefs.OS.OpenFile"), nil, 8,
-		"every step of rollbackJournal propagates its error", "a failed page restore followed by journal removal corrupts the database")
-	c.ExpectAll("rollback/segment-invalidate", c.CallArgs("litefs.(*DB).rollbackJournalSegment", call("writeDatabasePage"), 4), "true", 1, "rolled-back pages invalidate the kernel page cache", "stale cached pages of the aborted transaction stay visible")
 
 	// ---- C05.checkpoint ----
 	ck := "litefs.(*DB).CheckpointNoLock"
@@ -168,4 +152,43 @@ func c05(c *Ctx) {
 		"a received snapshot removes all other LTX files before it is applied", "Open recovers to the HIGHEST TXID on disk: a crash during the snapshot apply with stale higher-numbered files still present re-applies a file of the abandoned history over the snapshot image; every restart then fails")
 
 	c.divGuards("div")
+}
+
+// rollbackFamily: structure of rollbackJournal (shared by C05 and C17).
+func (c *Ctx) rollbackFamily(prefix string) {
+	p := c.P
+	call := func(n string) IM { return p.PlainCalls("litefs.(*DB)." + n) }
+	// ---- C05.rollback ----
+	rb := "litefs.(*DB).rollbackJournal"
+	trunc := call("truncateDatabase")
+	seg := call("rollbackJournalSegment")
+	rmJournal := c.osCall("Remove", "litefs.(*DB).JournalPath(p0)")
+	c.Guarded(prefix+"/truncate-valid-only", rb, trunc, gs(GP("litefs.(*JournalReader).IsValid(@@)", true)), 1,
+		"the database is resized only when a valid journal header was read", "resizing to a zero/garbage size destroys the database")
+	{
+		// with a valid journal the resize always happens before the database is synced
+		fn := c.F(rb)
+		key, rule := prefix+"/truncate-always-when-valid", "K1 Before (under assumed branch)"
+		desc := "whenever the journal was valid, rollbackJournal resizes the database before syncing it - under no further condition"
+		if c.need(key, rule, desc, fn, rb) {
+			invalid := p.EdgesAsserting(GP("litefs.(*JournalReader).IsValid(@@)", false))
+			if f := (&Search{P: p, Fn: fn, From: Instrs(fn, p.PlainCalls("litefs.(*JournalReader).IsValid")), Avoid: trunc, Block: invalid, Tgt: c.fileCall("Sync", "DatabasePath")}).Run(); f != nil {
+				c.fail(key, rule, desc, "rollback restores exactly the pre-transaction size: the in-memory page count is not the file size after a growing transaction spilled pages", "the sync at "+c.where(f.Instr)+" is reachable with a valid journal and no resize; path "+p.TraceString(f.Trace), 1)
+			} else {
+				c.ok(key, rule, desc, 1)
+			}
+		}
+	}
+	c.ExpectAll(prefix+"/truncate-size", c.CallArgs(rb, trunc, 2), pat("litefs.NewJournalReader(@@).commit"), 1, "the size restored is the journal header's initial database size", "C17: rollback restores exactly the pre-transaction size")
+	c.NoPath(prefix+"/no-copy-after-truncate", rb, trunc, seg, 1, "no journal page is copied back after the resize", "pages beyond the restored size would be re-extended")
+	c.Before(prefix+"/sync-before-unlink", rb, rmJournal, c.fileCall("Sync", "DatabasePath"), 1,
+		"the database file is fsynced before the journal is removed", "removing the journal commits the rollback; the restored pages must be durable first")
+	c.NoPath(prefix+"/no-write-after-unlink", rb, rmJournal, Any(seg, trunc), 1, "nothing is written to the database after the journal is removed", "a crash would leave a half-restored database without a journal")
+	c.BeforeG(prefix+"/journal-removed", rb, p.SuccessReturn, rmJournal, gs(GP("os.IsNotExist(litefs.OS.OpenFile(p0.os, @@JournalPath@@)#1)", true)), 1,
+		"unless no journal exists, every success exit has removed the journal", "a hot journal left behind is replayed by SQLite against a database LiteFS has already moved on")
+	c.Before(prefix+"/invalidate-after-unlink", rb, p.PlainCalls("litefs.Invalidator.InvalidateEntry"), rmJournal, 1, "the kernel entry cache is invalidated after the unlink", "invalidate-then-unlink lets the kernel re-cache the entry")
+	c.ErrHandled(prefix+"/errors", rb, p.PlainCalls("litefs.(*JournalReader).Next", "litefs.(*DB).rollbackJournalSegment", "litefs.(*DB).truncateDatabase", "os.(*File).Sync", "os.(*File).Close", "litefs.OS.Remove", "litefs.OS.OpenFile"), nil, 8,
+		"every step of rollbackJournal propagates its error", "a failed page restore followed by journal removal corrupts the database")
+	c.ExpectAll(prefix+"/segment-invalidate", c.CallArgs("litefs.(*DB).rollbackJournalSegment", call("writeDatabasePage"), 4), "true", 1, "rolled-back pages invalidate the kernel page cache", "stale cached pages of the aborted transaction stay visible")
+
 }
